@@ -37,11 +37,11 @@ func DescribeSpxFamilies() {
 // spxProps says which harnesses each property's SPX family explores.
 var spxProps = map[string][]string{
 	"C01": {"S1", "S2", "S9", "S17"},
-	"C09": {"S14", "S9"},
+	"C09": {"S14", "S9", "S18"},
 	"C13": {"S16", "S9"},
 	"C06": {"S4", "S10"},
 	"C10": {"S3", "S4", "S13"},
-	"C17": {"S1", "S2", "S3", "S4", "S9", "S10", "S13", "S14", "S16", "S17"},
+	"C17": {"S1", "S2", "S3", "S4", "S9", "S10", "S13", "S14", "S16", "S17", "S18"},
 	"C18": {"S1", "S6", "S12"},
 	"C02": {"S5", "S8", "S12"},
 	"C07": {"S8"},
@@ -247,7 +247,7 @@ func spxServerRules(x *spxInst, sc *spxScenario, prop string, add func(rule, sha
 				add("dispatched-twice", "", fmt.Sprintf("stream %d reached the handler %d times", cl.Stream, seen[cl.Stream]))
 			}
 			wantBody := ""
-			if short == "S2" && cl.Stream == 3 {
+			if (short == "S2" || short == "S18") && cl.Stream == 3 {
 				wantBody = "abc"
 			}
 			if cl.Stream != 1 && (cl.Req.Method != "POST" || cl.Req.URI != fmt.Sprint("/s", cl.Stream) || string(cl.Req.Body) != wantBody) {
